@@ -7,6 +7,7 @@ NAME=$1; shift
 export VERIF_SCRATCH=/tmp/verif-mut${MUT_TAG}
 export VERIF_REPLAYS=/tmp/verif-mut${MUT_TAG}-replays
 export VERIF_REPO=/tmp/verif-mut${MUT_TAG}-repo
+export VERIF_EVIDENCE=/tmp/verif-mut${MUT_TAG}-evidence
 cd /verif
 mkdir -p $VERIF_REPO
 rsync -a --delete --exclude .git --exclude _build /repo/ $VERIF_REPO/
